@@ -29,13 +29,15 @@
 EXTENDS LiskBFT, Json, SequencesExt
 
 CONSTANTS Win, InitW, InitPCT, Now, MaxBlocks, MaxHeight, MaxSteps, MaxRestart, DumpEvery,
+          Byz,          \* Byzantine validators (no node of their own: they forge anywhere, equivocate, and announce any of their blocks)
+          MaxByz,       \* bound on the number of Byzantine blocks
           SlotSpan,     \* a forger uses one of the next SlotSpan slots (N: its next slot; 2N: it may skip a round)
           SkipDiscard   \* TRUE: announcements the receiver would discard are not generated (deep simulation runs)
 
 VARIABLES blocks, tip, fin, recv, banned, maxGen, lastSlot, script
 vars == <<blocks, tip, fin, recv, banned, maxGen, lastSlot, script>>
 
-Nodes == Validators
+Nodes == Validators \ Byz          \* honest validators, one node each
 N == NVal
 Gens == [i \in 1..N |-> i]
 GenOfSlot(s) == Gens[(s % N) + 1]
@@ -117,13 +119,15 @@ SyncOutcome(n, last, b) ==
   ELSE IF last.h - ca > 2 * N \/ b.h - ca > 2 * N THEN "error"
   ELSE "switch"
 
-Deliver(p, n) ==
-  /\ Len(script) < MaxSteps /\ p # n
-  /\ tip[p] # tip[n]                              \* (identical blocks are a stuttering step)
-  /\ LET b == Blk(tip[p])  last == Blk(tip[n])  br == Branch(n, last, b)
+\* node n processes block b announced by src (an honest node announcing its tip, or a Byzantine validator announcing
+\* any of its blocks and serving that block's chain to whoever asks)
+Receive(src, b, n) ==
+  /\ Len(script) < MaxSteps /\ src # n
+  /\ b.id # tip[n]                               \* (identical blocks are a stuttering step)
+  /\ LET last == Blk(tip[n])  br == Branch(n, last, b)
          \* a ban closes the connection and the banning side's gater refuses the (shared loopback) address afterwards:
-         \* no request can be exchanged between the two nodes any more, in either direction
-         linkDown == p \in banned[n] \/ n \in banned[p]
+         \* no request can be exchanged between the two any more, in either direction
+         linkDown == src \in banned[n] \/ (src \in Nodes /\ n \in banned[src])
          out == IF br # "differentchain" THEN "none"
                 ELSE IF SyncOutcome(n, last, b) = "blocksync" THEN "blocksync"
                 ELSE IF linkDown THEN "error" ELSE SyncOutcome(n, last, b) IN
@@ -143,11 +147,30 @@ Deliver(p, n) ==
                /\ fin' = [fin EXCEPT ![n] = Max2(@, b.votes.mhpc)]
                /\ UNCHANGED <<recv, banned>>
           [] br = "differentchain" /\ out = "ban" ->
-               /\ banned' = [banned EXCEPT ![n] = @ \cup {p}]
+               /\ banned' = [banned EXCEPT ![n] = @ \cup {src}]
                /\ UNCHANGED <<tip, fin, recv>>
           [] OTHER -> UNCHANGED <<tip, fin, recv, banned>>
-     /\ script' = Append(script, [op |-> "deliver", from |-> p, node |-> n, branch |-> br, sync |-> out,
+     /\ script' = Append(script, [op |-> "deliver", from |-> src, node |-> n, blk |-> b.id, byz |-> src \in Byz, branch |-> br, sync |-> out,
                                   obs |-> Obs(n, tip', fin', banned')])
+
+Deliver(p, n) == Receive(p, Blk(tip[p]), n)
+
+\* Byzantine validators: any branch-valid block (what verifyBlock accepts on that branch) on any parent, any claimed
+\* maxHeightGenerated, several blocks per height / slot; they are announced to honest nodes in any order
+NByz == Cardinality({b \in blocks : b.gen \in Byz})
+ByzForge(v) ==
+  /\ Len(script) < MaxSteps /\ Cardinality(blocks) < MaxBlocks /\ NByz < MaxByz
+  /\ \E p \in blocks : \E mhg \in {0, p.h + 1} \cup {x.h : x \in {y \in blocks : y.gen = v}} :
+       /\ p.h < MaxHeight
+       /\ \E s \in (p.slot + 1)..Min2(Now, p.slot + SlotSpan) :
+            /\ GenOfSlot(s) = v
+            /\ LET b == MkBlock(p, v, mhg, s) IN
+               /\ b \notin blocks
+               /\ ~ContraChain(p.votes, Hdr(b))
+               /\ blocks' = blocks \cup {b}
+               /\ UNCHANGED <<tip, fin, recv, banned, maxGen, lastSlot>>
+               /\ script' = Append(script, [op |-> "byzforge", node |-> v, parent |-> p.id, blk |-> b.id, slot |-> s, mhg |-> mhg, branch |-> "none"])
+ByzDeliver(v, n) == \E b \in {x \in blocks : x.gen = v} : Receive(v, b, n)
 
 (* the node is re-created on its database: receive time and ban list are in memory only *)
 NRestart == Cardinality({i \in 1..Len(script) : script[i].op = "restart"})
@@ -158,7 +181,8 @@ Restart(n) ==
   /\ UNCHANGED <<blocks, tip, fin, maxGen, lastSlot>>
   /\ script' = Append(script, [op |-> "restart", node |-> n, branch |-> "none", obs |-> Obs(n, tip', fin', banned')])
 
-Next == \E n \in Nodes : Forge(n) \/ Restart(n) \/ (\E p \in Nodes : Deliver(p, n))
+Next == \/ \E n \in Nodes : Forge(n) \/ Restart(n) \/ (\E p \in Nodes : Deliver(p, n)) \/ (\E v \in Byz : ByzDeliver(v, n))
+        \/ \E v \in Byz : ByzForge(v)
 Spec == Init /\ [][Next]_vars
 
 (* ------------------------------ properties ------------------------------ *)
@@ -175,7 +199,7 @@ FinalizedIrreversible == [][\A n \in Nodes : Anc(tip'[n], fin[n]) = Anc(tip[n], 
 \* C07/C15 link: protocol-following validators never sign contradicting headers, at most one block per slot
 OwnHeaders(v) == {b \in blocks : b.gen = v /\ b.h > 0}
 HonestNoContra == \A v \in Nodes : \A a, b \in OwnHeaders(v) : a # b => ~Contra(Hdr(a), Hdr(b))
-OneBlockPerSlot == \A a, b \in blocks : (a.h > 0 /\ b.h > 0 /\ a.slot = b.slot) => a = b
+OneBlockPerSlot == \A a, b \in blocks : (a.h > 0 /\ b.h > 0 /\ a.slot = b.slot /\ a.gen \in Nodes) => a = b
 \* fork choice only ever moves a node to a chain that is not worse (LIP-0014 order on (maxHeightPrevoted, height))
 NeverWorse == [][\A n \in Nodes : LET a == Blk(tip[n]) b == CHOOSE x \in blocks' : x.id = tip'[n] IN
                      b.mhp > a.mhp \/ (b.mhp = a.mhp /\ b.h >= a.h)]_vars
@@ -185,7 +209,7 @@ TipsExist == \A n \in Nodes : \E b \in blocks : b.id = tip[n]
 HasFinality == \E n \in Nodes : fin[n] > 0
 FinDumpEvery == IF DumpEvery >= 10 THEN DumpEvery \div 10 ELSE 1
 HasFork == \E a, b \in blocks : a # b /\ a.h = b.h
-Interesting == \E i \in 1..Len(script) : script[i].branch \in {"tiebreak", "differentchain"}
+Interesting == \E i \in 1..Len(script) : script[i].branch \in {"tiebreak", "differentchain", "doubleforging"}
 DumpInv ==
   (DumpEvery > 0 /\ (Len(script) = MaxSteps \/ ~ENABLED Next)
      /\ RandomElement(1..(IF HasFinality THEN FinDumpEvery ELSE IF Interesting THEN DumpEvery ELSE 20 * DumpEvery)) = 1)
